@@ -476,16 +476,29 @@ func runC03(r *Report, rng *rand.Rand, thorough bool) {
 					break
 				}
 			}
+			// a base URL that carries a path variable of its own, in the router's syntax (/orgs/:org, /orgs/{org}): the
+			// operation's variables still arrive under their own names
+			bases = append(bases, []string{"orgs", "{VAR}"})
+			r.Dist["base=with-a-variable-of-its-own"]++
 			for _, base := range bases {
+				base := base
+				baseURL := ""
+				if len(base) > 0 {
+					baseURL = "/" + strings.Join(base, "/")
+				}
+				if len(base) == 2 && base[1] == "{VAR}" {
+					if fw == "chi" || fw == "gorilla" || fw == "stdhttp" {
+						baseURL = "/orgs/{org}"
+					} else {
+						baseURL = "/orgs/:org"
+					}
+					base = []string{"orgs", "acme"}
+				}
 				add := func(kind, method string, segs []string) {
 					id := fmt.Sprintf("%s/%d", name, len(scenarios))
 					full := append(append([]string(nil), base...), segs...)
 					if kind == "no-base-prefix" {
 						full = segs
-					}
-					baseURL := ""
-					if len(base) > 0 {
-						baseURL = "/" + strings.Join(base, "/")
 					}
 					// the generated entry point that mounts the server: with an options value, or (net/http flavours) on a
 					// router the caller made and serves itself, or the plain one-argument form when there is no base URL
@@ -752,7 +765,7 @@ func runC03(r *Report, rng *rand.Rand, thorough bool) {
 		}
 	}
 	dcases.WriteTo(r)
-	r.Rule = "function level: random path templates through SwaggerUriTo{Echo,Chi,Gin,Gorilla,StdHttp,Fiber,Iris}Uri, OrderedParamsFromUri and SortParamsByPath (permuted, missing, extra and renamed declarations) vs the model; generated routers: random route sets (shared prefixes, static/templated siblings, 0-4 variables, path-level / operation-level / overridden parameter declarations in shuffled order) x 7 frameworks x with/without base URL x strict/non-strict x the generated entry points (options value; plain form; the caller's own router, with and without base URL, served itself), requests = matching paths with random values (alphanumeric; one in six with + . ~ - _ = ;), extra/missing segment, other method, value equal to a sibling literal, missing base prefix; one fixed set of paths differing in a final slash plus the root path (/, /pets, /pets/, /pets/{id}); non-trivial = a near-miss or sibling probe"
+	r.Rule = "function level: random path templates through SwaggerUriTo{Echo,Chi,Gin,Gorilla,StdHttp,Fiber,Iris}Uri, OrderedParamsFromUri and SortParamsByPath (permuted, missing, extra and renamed declarations) vs the model; generated routers: random route sets (shared prefixes, static/templated siblings, 0-4 variables, path-level / operation-level / overridden parameter declarations in shuffled order) x 7 frameworks x with/without base URL (constant, a prefix of a document path, one with a path variable of its own in the router's syntax) x strict/non-strict x the generated entry points (options value; plain form; the caller's own router, with and without base URL, served itself), requests = matching paths with random values (alphanumeric; one in six with + . ~ - _ = ;), extra/missing segment, other method, value equal to a sibling literal, missing base prefix; one fixed set of paths differing in a final slash plus the root path (/, /pets, /pets/, /pets/{id}); non-trivial = a near-miss or sibling probe"
 }
 
 func handlerNames(hs []LabEvent) []string {
